@@ -422,6 +422,27 @@ fn run_job(job: &Value, stdf: &Vec<(String, Vec<u8>)>) -> Value {
             o.insert("fmtparse".into(), json!(res));
         }
 
+        "lex" => {
+            // tokenize each text completely: [kind, length in bytes] per token (a token of length 0 would
+            // not advance: it is reported and the text abandoned)
+            let mut res = Vec::new();
+            for text in str_list(job.get("texts")) {
+                let mut toks = Vec::new();
+                let mut i = 0;
+                while i < text.len() {
+                    let (kind, len) = customasm::syntax::decide_next_token(&text[i..]);
+                    toks.push(json!([format!("{:?}", kind), len]));
+                    if len == 0 || !text.is_char_boundary(i + len) {
+                        toks.push(json!(["Stuck", 0]));
+                        break;
+                    }
+                    i += len;
+                }
+                res.push(json!(toks));
+            }
+            o.insert("lexed".into(), json!(res));
+        }
+
         "navigate" => {
             let mut res = Vec::new();
             if let Some(pairs) = job.get("pairs").and_then(|v| v.as_array()) {
